@@ -3,6 +3,7 @@ package main
 import (
 	"encoding/json"
 	"fmt"
+	"hash/fnv"
 	"sort"
 	"strings"
 
@@ -37,6 +38,8 @@ type scItem struct {
 	Alt  *scAlt `json:"alt"`
 	Altn *scAlt `json:"altn"`
 	Altt *scAlt `json:"altt"`
+	Altm *scAlt `json:"altm"`
+	Mb   int    `json:"mb"`
 }
 
 // UnmarshalJSON records whether TLC attached a vis set (closers appended at emission have none).
@@ -122,7 +125,21 @@ type scRender struct {
 func scFileName(i int) string { return fmt.Sprintf("f%d.lua", i+1) }
 
 // scRenderProg renders items one statement per line, ASCII only, no indentation.
-func scRenderProg(items []scItem) *scRender {
+func scRenderProg(items []scItem) *scRender { return scRenderMode(items, 0) }
+
+// scModeOf picks the layout of a program: 0 = one statement per line, 1 = all statements of a file on one line
+// (separated by single spaces; valid Lua because no generated statement starts with a parenthesis). The choice is a
+// seeded hash of the behaviour, so that each run covers both layouts; the thorough tier runs every program in both.
+func scModeOf(raw []byte, seed int64) int {
+	h := fnv.New64a()
+	h.Write(raw)
+	return int((h.Sum64()^uint64(seed)*0x9e3779b97f4a7c15)>>11+uint64(scPass)) % 2
+}
+
+// scPass flips the layout choice (thorough tier: second pass over the same programs).
+var scPass = 0
+
+func scRenderMode(items []scItem, mode int) *scRender {
 	r := &scRender{DeclAt: map[int]*occ{}}
 	cur := 0
 	r.Files = append(r.Files, scFileName(0))
@@ -131,6 +148,18 @@ func scRenderProg(items []scItem) *scRender {
 		// parts: strings are literal text; occ values mark identifiers
 		var sb strings.Builder
 		line := len(r.Lines[cur])
+		if mode == 1 {
+			line = 0
+			if len(r.Lines[cur]) == 1 {
+				sb.WriteString(r.Lines[cur][0])
+				sb.WriteString(" ")
+			}
+		}
+		defer func() {
+			if mode == 1 {
+				r.Lines[cur] = []string{sb.String()}
+			}
+		}()
 		for _, p := range parts {
 			switch v := p.(type) {
 			case string:
@@ -144,7 +173,9 @@ func scRenderProg(items []scItem) *scRender {
 				r.Occ = append(r.Occ, v)
 			}
 		}
-		r.Lines[cur] = append(r.Lines[cur], sb.String())
+		if mode != 1 {
+			r.Lines[cur] = append(r.Lines[cur], sb.String())
+		}
 	}
 	decl := func(slot, n string, id int, kind string) occ {
 		return occ{Slot: slot, Name: n, Role: "decl", Decl: id, Kind: kind}
@@ -183,6 +214,14 @@ func scRenderProg(items []scItem) *scRender {
 			} else {
 				add(i, tgt, " = ", use("u", it.U, it.B, it.Alt))
 			}
+		case "assign2":
+			tg := func(slot, n string, b, id int, alt *scAlt) occ {
+				if b != 0 {
+					return occ{Slot: slot, Name: n, Role: "write", B: b, Alt: alt.devs()}
+				}
+				return occ{Slot: slot, Name: n, Role: "gdef", Decl: id, Kind: "global"}
+			}
+			add(i, tg("n", it.N, it.Nb, it.ID, it.Altn), ", ", tg("m", it.M, it.Mb, it.Mid, it.Altm), " = tostring(", use("u", it.U, it.B, it.Alt), ")")
 		case "do":
 			add(i, "do")
 		case "while":
